@@ -110,6 +110,16 @@ def main():
     write("import-mangling-underscore-boundary.json", "RECORDED FINDING import-mangling-underscore-at-module-field-boundary: (\"a_\",\"b\") and "
           "(\"a\",\"_b\") are both mangled to a___b (a run of n underscores is written as 2n-1, the separator adds 2): calling the second import runs "
           "the first host function", m, imp, calls, known_key="import-mangling-underscore-at-module-field-boundary")
+    # 4b. module names starting with a digit (the identifier must not: fixed by /repo ed458af; witness also kept under tools/corpus/C11)
+    names = [(b"1env", b"f"), (b"2env", b"f"), (b"0", b"g"), (b"9x_", b"h"), (b"5_", b"j"), (b"3" + e, b"k"), (b"1env", b"g2"), (b"env1", b"f"),
+             (b"X31env", b"f"), (b"31env", b"f"), (b"7", b"")]
+    globs = [(b"1env", b"glob"), (b"0", b"g0"), (b"4_", b"gg"), (b"X30", b"g0")]
+    m, imp, calls = func_import_module(names, globs, memory=(b"8mem", b"m"), table=(b"6tab", b"t"))
+    note = ("import module names starting with a digit (\"1env\" vs \"2env\", \"0\", \"9x_\", \"5_\", digit + non-ASCII, \"7\" with an empty field) for "
+            "function, global, memory and table imports, next to the look-alikes \"X31env\", \"31env\", \"env1\": the C identifier of an import must "
+            "be an identifier (before /repo ed458af: `U32 1env__f(void*,U32);` did not compile) and every call must reach ITS host function")
+    write("import-module-leading-digit.json", note, m, imp, calls)
+    write(os.path.join("..", "C11", "import-module-leading-digit.json"), note, m, imp, calls)
     # 5. element segments whose positions are far from the function indices
     m = A.Module()
     m.types = [A.FuncType([], [A.I32]), A.FuncType([A.I32], [A.I32])]
